@@ -38,6 +38,43 @@ def run(ctx):
         ctx.ob("C17.1", "poll fn examined:%s" % b.path.rsplit("::", 2)[-2], True,
                "%d inner polls, %d explicit Pending exits" % (len(inner), len(exits)), trivial=not exits)
     ctx.sample({"poll functions": table_})
+    # C17.2 — no layer of the subscription manufactures an end of the stream: a `poll_next` that forwards an inner
+    # stream either returns the inner poll's value untouched or only ends (`Ready(None)`) behind the inner `None`.
+    # (Turning a lagged / invalid item into `None` terminates the subscription for good: later valid messages are
+    # never yielded.)
+    from mir import deep_calls, origins, branches_on, edge_dominates
+    from facts import Place
+    COMB = ("map", "filter", "and_then", "map_ok", "take_while", "then", "filter_map", "ok", "flatten", "transpose")
+    chain = [b for b in fns if b.path.endswith("Stream>::poll_next") and (
+        "ephemeral_stream::EphemeralStreamSubscription" in b.path or "gossip::api::GossipSubscription" in b.path)]
+    ctx.floor("C17.2", "stream layers of an ephemeral subscription (p2panda, p2panda-net)", len(chain), 2)
+    for b in chain:
+        _ex, inner = pending_exits(b)
+        names_ = {n.rsplit("::", 1)[-1] for n in deep_calls(b, Place([0, []]))
+                  if n.startswith(("core::task::poll::Poll", "core::option::Option", "core::result::Result"))}
+        transforms = sorted(names_ & set(COMB))
+        # explicit `Ready(None)` constructions must lie behind the inner None
+        nones = []
+        for bb, k, pl, rv, st in b.assigns():
+            if rv["k"] == "agg" and rv.get("variant") == "None" and (rv.get("adt") or "").endswith("option::Option"):
+                if origins(b, Place([0, []])).aggs and any(bb2 == bb for bb2, _ in origins(b, Place([0, []])).aggs):
+                    nones.append(bb)
+        unguarded = []
+        for bb in nones:
+            ok_ = False
+            for c in inner:
+                for br in branches_on(b, c.result, c.done_bb):
+                    e = br.edge("none")
+                    if e and edge_dominates(b, e, bb):
+                        ok_ = True
+            if not ok_:
+                unguarded.append(b.loc(bb))
+        ctx.ob("C17.2", "no manufactured end of stream:%s" % b.path.split(" as ")[0].rsplit("::", 1)[-1], not transforms and not unguarded,
+               "`%s` %s: an item of the inner stream (e.g. a lagged-receiver error) can be turned into `None`, which ends the "
+               "subscription although later valid messages would follow"
+               % (b.path, ("passes the inner poll result through %s" % transforms) if transforms else
+                  ("returns Ready(None) at %s without the inner stream having ended" % unguarded)),
+               site=b.loc(), key="C17.2:manufactured-end:%s" % b.path.split(" as ")[0].rsplit("::", 1)[-1])
 
 
 MANIFEST = {
